@@ -130,11 +130,14 @@ fn cmd_run(args: &[String]) {
     let plan = (sc.plan)(&base);
     let total = a.episodes.unwrap_or(plan.episodes);
     let mut shard = ShardReport::default();
-    let mut idx = a.shard;
     let budget_s: Option<u64> = a.extra.get("budget_s").and_then(|s| s.parse().ok());
     let mut truncated = false;
     let mut partials_written = 0;
-    while idx < total {
+    // This shard's episodes, in a fixed scrambled order: if the time budget cuts the run short, what
+    // was run is a sample of every family of the plan and not just of its first families.
+    let mut order: Vec<u64> = (a.shard..total).step_by(a.shards.max(1) as usize).collect();
+    order.sort_by_key(|i| mix(0x0BAD_5EED, *i));
+    for idx in order {
         if let Some(b) = budget_s {
             if t0.elapsed().as_secs() >= b {
                 truncated = true;
@@ -158,7 +161,6 @@ fn cmd_run(args: &[String]) {
         if a.verbose {
             eprintln!("episode {} key={} nontrivial={} violations={}", idx, r.0, r.1, r.2);
         }
-        idx += a.shards;
     }
     shard.panics = world::take_panics();
     let mut j = shard.to_json();
